@@ -1,0 +1,7 @@
+//go:build !verif
+
+package dag
+
+func verifEmit(ev string, g *Graph, id ID, detail string) {}
+
+func verifErrKind(err error) string { return "" }
